@@ -177,16 +177,24 @@ pub fn run(ctx: &mut Ctx) {
         }
         let mut r = ctx.rng_global(7, s);
         // the interpreted run (Miri) costs ~0.3 s per packet: two small scenarios, two mixes
-        let nconn = if ctx.miri() { 2 + r.usize(2) } else { 2 + r.usize(7) };
+        // one scenario in 16 is a crowd: 18..25 connections of one client address (a NAT gateway,
+        // a busy proxy), most of them TLS with hellos in several segments, so that many
+        // half-finished flows of one source exist at the same time -- still far below the capacity
+        let crowd = !ctx.miri() && (s / 16) % 16 == s % 16;
+        let nconn = if ctx.miri() { 2 + r.usize(2) } else if crowd { 18 + r.usize(8) } else { 2 + r.usize(7) };
         let base_id = s * 16;
         // half of the scenarios put all connections between a small set of hosts (same client
         // address with different ports, same server address/port), the other half use unrelated hosts
         let shared_hosts = s % 2 == 1;
         let mut conns: Vec<Conn> = Vec::with_capacity(nconn);
         for i in 0..nconn {
-            let kind = *r.pick(&KINDS);
+            let kind = if crowd && r.chance(3, 4) { Kind::Tls } else { *r.pick(&KINDS) };
             let base = scenario::T0 + r.below(2000);
-            let ep = if shared_hosts && i % 2 == 1 && r.chance(1, 2) {
+            let ep = if crowd {
+                let c = [10, 78, (s % 250) as u8, 7];
+                let sv = [172, 21, (s % 250) as u8, 1 + r.below(3) as u8];
+                Some(crate::pkt::Endpoints::v4(c, 3000 + (i as u16) * 41 + (r.below(30) as u16), sv, 443))
+            } else if shared_hosts && i % 2 == 1 && r.chance(1, 2) {
                 // the mirror image of the previous connection: the same two hosts and the same two
                 // port numbers, associated the other way round (X:p -> Y:q and Y:p -> X:q)
                 let p = &conns[i - 1].ep;
@@ -219,7 +227,9 @@ pub fn run(ctx: &mut Ctx) {
             if failed {
                 continue;
             }
-            for mix in MIXES.iter().take(if ctx.miri() { 2 } else if ctx.quick() { 3 + (s % 3) as usize } else { 5 }) {
+            // (a crowd is interleaved round-robin and riffled: all its connections are open at once)
+            let mixes: &[Mix] = if crowd { &[Mix::RoundRobin, Mix::Riffle] } else { &MIXES };
+            for mix in mixes.iter().take(if ctx.miri() { 2 } else if ctx.quick() { 3 + (s % 3) as usize } else { 5 }) {
                 let trace = scenario::interleave(&mut r, &conns, *mix);
                 // half of the scenarios run the interleaving on an analyzer whose configured
                 // connection capacity is exactly the number of connections ("within the configured
